@@ -8,6 +8,7 @@ import (
 
 	"verif/checker/core"
 	"verif/checker/rules"
+	"verif/checker/tmpl"
 )
 
 func init() { register("C13", c13) }
@@ -34,6 +35,11 @@ func c13(c *core.Check) {
 	agg := newAggregate()
 	runUnits(c, st, units, func(r *rendered) {
 		k := r.U.key()
+		if _, gf := r.R.Err.(*tmpl.GenFailure); gf {
+			// the generator itself refuses this input (e.g. ZeroWriter has no arm for union/exception fields, DESIGN D9):
+			// no code is produced, so no clause about generated code applies
+			return
+		}
 		if r.R.Err != nil || r.ParseErr != nil {
 			agg.check("renders", k)
 			agg.fail("renders", k, fmt.Sprintf("under [%s]: %v %v", r.R.Valuation, r.R.Err, r.ParseErr))
